@@ -363,10 +363,18 @@ func serverEffects(c *core.Ctx, R string) {
 			return 0
 		}
 		nMsg := 0
-		for _, a := range assignsIn(u, func(l ast.Expr) bool { return isLocal(info, l, "message") }) {
+		// the selection may have moved into a novel private helper that returns the message: judge it there
+		mu, mg, mctx := u, g, hasCtx
+		mname := "message"
+		if hu, hv := followNovelResult(c, u, localVarByName(u, "message")); hu != nil {
+			c.Touch(hu)
+			mu, mg, mname = hu, hu.Graph(), hv.Name()
+			mctx = gNilLocal(paramName(hu, 1), true)
+		}
+		for _, a := range assignsIn(mu, func(l ast.Expr) bool { return isLocal(info, l, mname) }) {
 			if _, isTA := ast.Unparen(a.Rhs).(*ast.TypeAssertExpr); isTA {
 				nMsg++
-				c.Check(R, "engine.abortRequest/hook-message-iff-present", a.Stmt.Pos(), g.GuardedBy(a.Loc, hasCtx) && g.GuardedBy(a.Loc, okMsg), "the context's message replaces the default only when a context with a message was given")
+				c.Check(R, "engine.abortRequest/hook-message-iff-present", a.Stmt.Pos(), mg.GuardedBy(a.Loc, mctx) && mg.GuardedBy(a.Loc, okMsg), "the context's message replaces the default only when a context with a message was given")
 			}
 		}
 		c.Need(R, "message override in abortRequest", nMsg, 1)
@@ -396,10 +404,18 @@ func serverEffects(c *core.Ctx, R string) {
 				return 0
 			}
 			nMsg := 0
-			for _, a := range assignsIn(u, func(l ast.Expr) bool { return isLocal(info, l, "message") }) {
+			// the selection may have moved into a novel private helper that returns the message: judge it there
+			mu, mg, mctx := u, g, hasCtx
+			mname := "message"
+			if hu, hv := followNovelResult(c, u, localVarByName(u, "message")); hu != nil {
+				c.Touch(hu)
+				mu, mg, mname = hu, hu.Graph(), hv.Name()
+				mctx = gNilLocal(paramName(hu, 1), true)
+			}
+			for _, a := range assignsIn(mu, func(l ast.Expr) bool { return isLocal(info, l, mname) }) {
 				if _, isTA := ast.Unparen(a.Rhs).(*ast.TypeAssertExpr); isTA {
 					nMsg++
-					c.Check(R, "engine.abortUpgrade/hook-message-iff-present", a.Stmt.Pos(), g.GuardedBy(a.Loc, hasCtx) && g.GuardedBy(a.Loc, okMsg), "the context's message replaces the default only when a context with a message was given")
+					c.Check(R, "engine.abortUpgrade/hook-message-iff-present", a.Stmt.Pos(), mg.GuardedBy(a.Loc, mctx) && mg.GuardedBy(a.Loc, okMsg), "the context's message replaces the default only when a context with a message was given")
 				}
 			}
 			c.Need(R, "message override in abortUpgrade", nMsg, 1)
